@@ -177,21 +177,38 @@ class Node:
         except OSError:
             return None
 
-    def api_login(self, user="admin", password="admin"):
-        r = self.post("/nacos/v1/auth/login", form={"username": user, "password": password})
-        j = r.json() or {}
-        return j.get("accessToken")
+    def api_login(self, user="admin", password="admin", wait=8.0):
+        t0 = time.time()
+        while True:
+            r = self.post("/nacos/v1/auth/login", form={"username": user, "password": password})
+            j = r.json() or {}
+            tok = j.get("accessToken")
+            if (tok and tok != "AUTH_DISABLED") or time.time() - t0 > wait or tok == "AUTH_DISABLED":
+                return tok
+            time.sleep(0.2)
 
-    def console_login(self, user="admin", password="admin"):
-        """returns the console session token (cookie `token`)"""
+    def console_login(self, user="admin", password="admin", wait=8.0):
+        """returns (session token, last response); the token is accepted as cookie `token=<t>` or header `Token: <t>`.
+        The built-in admin user is created a few hundred ms after start-up, hence the bounded retry."""
         import base64
-        r = http(self.console_port, "POST", "/rnacos/api/console/v2/login/login",
-                 form={"username": user, "password": base64.b64encode(password.encode()).decode()})
-        tok = None
-        for k, v in r.headers.items():
-            if k.lower() == "set-cookie" and "token=" in v:
-                tok = v.split("token=", 1)[1].split(";", 1)[0]
-        return tok, r
+        t0 = time.time()
+        while True:
+            r = http(self.console_port, "POST", "/rnacos/api/console/v2/login/login",
+                     form={"username": user, "password": base64.b64encode(password.encode()).decode()})
+            j = r.json() or {}
+            tok = (j.get("data") or {}).get("token") if j.get("success") else None
+            if tok or time.time() - t0 > wait:
+                return tok, r
+            time.sleep(0.2)
+
+    def console(self, method, path, token=None, params=None, form=None, body=None, headers=None, carrier="cookie", **kw):
+        h = dict(headers or {})
+        if token is not None:
+            if carrier == "cookie":
+                h["Cookie"] = "token=%s" % token
+            else:
+                h["Token"] = token
+        return http(self.console_port, method, path, params=params, form=form, body=body, headers=h, **kw)
 
 
 class Cluster:
